@@ -285,8 +285,24 @@ class Check:
             st.theorems = prop_theorems(self.pid)
             self.build_status = st
             return st
-        self.build_status = build(self.pid, self.tier)
-        return self.build_status
+        st = build(self.pid, self.tier)
+        self.build_status = st
+        # a part the translator could not regenerate: the Lean definitions are the pinned ones; where the part has a finite domain the
+        # tie is re-established by comparing the pinned model with the code over the whole domain (harness/partcheck.py)
+        stale_here = [p for p in PARTS_OF.get(self.pid, []) if p in st.stale]
+        if stale_here and not any(k == "lake-build" for k, _ in st.problems):
+            import partcheck
+            for part in stale_here:
+                ok, what, diffs = partcheck.validate(part, self.driver)
+                self.extra.setdefault("stale_parts_validated", {})[part] = {"ok": ok, "compared": what, "translator": st.stale[part]}
+                if ok:
+                    st.problems = [(k, d) for k, d in st.problems if not (k == "extract" and f"part '{part}'" in str(d))]
+                    self.note(f"translator could not read part '{part}' ({st.stale[part]}); the pinned definitions were validated against the code instead: {what}")
+                else:
+                    for d in diffs[:3]:
+                        self.mismatch(f"PART.{part}", d, "code", "pinned model")
+            st.ok = not st.problems
+        return st
 
     # ------------------------------------------------------------------ decision
     def _write_replay(self, payload):
